@@ -357,6 +357,30 @@ func (e *Exec) extBuiltinC(st *State, c *ssa.CallCommon, fn *ssa.Function, key s
 			arr := e.heapComp(st, "G.ghost_nwrites", SInt, arraySort(SInt, SInt))
 			cur := tSelect(arr, w, SInt)
 			e.setHeap(st, "G.ghost_nwrites", tStore(arr, w, tIte(tEq(errT, tInt(0)), tAdd(cur, tInt(1)), cur)))
+			// Fprint(w, s) with a single string operand: what was written is that string (ghost_lastwrite(w))
+			if c != nil && len(c.Args) == 2 {
+				if slv, ok := c.Args[1].(*ssa.Slice); ok {
+					if al, ok := slv.X.(*ssa.Alloc); ok {
+						if at, ok := al.Type().(*types.Pointer).Elem().Underlying().(*types.Array); ok && at.Len() == 1 {
+							sv := e.asTerm(st, args[1], c.Args[1].Type())
+							name, srt := e.ti.elemComp(at.Elem(), nil)
+							as := arraySort(SInt, srt)
+							H := e.heapComp(st, name, SInt, arraySort(SInt, as))
+							el := tSelect(tSelect(H, slArr(sv), as), app(SInt, "sidx", sv, tInt(0)), srt)
+							f := "box." + smtIdent(typeShort(types.Typ[types.String]))
+							e.smt.declareFun(f, []string{SStr}, SInt)
+							e.smt.declareFun("un"+f, []string{SInt}, SStr)
+							e.boxAxiom(f, SStr, e.ti.tagOf(types.Typ[types.String]))
+							isStr := tEq(app(SInt, "dyntype", el), tInt(int64(e.ti.tagOf(types.Typ[types.String]))))
+							e.ghostSorts["ghost_lastwrite"] = SStr
+							lw := e.heapComp(st, "G.ghost_lastwrite", SInt, arraySort(SInt, SStr))
+							keep := tSelect(lw, w, SStr)
+							fresh := e.smt.fresh("written", SStr)
+							e.setHeap(st, "G.ghost_lastwrite", tStore(lw, w, tIte(tEq(errT, tInt(0)), tIte(isStr, app(SStr, "un"+f, el), fresh), keep)))
+						}
+					}
+				}
+			}
 		}
 		return r, true
 	case "fmt.Printf", "fmt.Println", "fmt.Fprintf":
